@@ -106,6 +106,16 @@ def lookup_dump(ctx):
 			if "subst_frame_loss(struct" in text.split("l1sched_pull_burst")[0]:
 				f.write("#define WITH_SUBST_FRAME_LOSS 1\n")
 			f.write("#define LOOKUP_PART_1\n#include \"sched_lookup_main.c\"\n#undef LOOKUP_PART_1\n")
+			# one recording handler pair per entry of the channel description table, so that the entry the real
+			# code takes its handler from is observable
+			f.write("#define HAVE_FILL_DESC 1\n")
+			for k in range(64):
+				f.write("static int rec_tx_%d(struct l1sched_lchan_state *l, struct l1sched_burst_req *b) { rec_desc = %d; return rec_tx(l, b); }\n" % (k, k))
+				f.write("static int rec_rx_%d(struct l1sched_lchan_state *l, const struct l1sched_burst_ind *b) { rec_desc = %d; return rec_rx(l, b); }\n" % (k, k))
+			f.write("static void fill_desc(void) {\n")
+			for k in range(64):
+				f.write("\tif (%d < _L1SCHED_CHAN_MAX) { l1sched_lchan_desc_rw[%d].tx_fn = rec_tx_%d; l1sched_lchan_desc_rw[%d].rx_fn = rec_rx_%d; }\n" % (k, k, k, k, k))
+			f.write("}\n")
 			f.write(text + "\n#define LOOKUP_PART_2\n#include \"sched_lookup_main.c\"\n")
 		try:
 			binary = cbuild.compile_link(bd, "sched_lookup_drv", [tu, os.path.join(cbuild.TRXCON, "src/sched_mframe.c"),
@@ -126,7 +136,7 @@ def lookup_dump(ctx):
 	for l in out.decode().splitlines():
 		p = l.split()
 		if p and p[0] in ("u", "d"):
-			res.append((p[0], int(p[1]), int(p[2]), int(p[3]), int(p[4]), int(p[5])))
+			res.append((p[0], int(p[1]), int(p[2]), int(p[3]), int(p[4]), int(p[5]), int(p[-1]) if len(p) > (6 if p[0] == "u" else 7) else None))
 		elif p and p[0] == "l":
 			calls = [tuple(int(x) for x in c.split("/")) for c in p[7:]]
 			res.append(("l", int(p[1]), int(p[2]), int(p[3]), int(p[4]), int(p[5]), calls))
@@ -167,7 +177,7 @@ def check_lookup(ctx, layouts):
 	for rec in res:
 		if rec[0] == "l":
 			continue
-		(d, config, tn, fn, chan, bid) = rec
+		(d, config, tn, fn, chan, bid, desc) = rec
 		L = layouts.get((config, tn))
 		if not L or not L["frames"]:
 			continue
@@ -175,6 +185,11 @@ def check_lookup(ctx, layouts):
 		want = (fr[2], fr[3]) if d == "u" else (fr[0], fr[1])
 		ctx.count("scheduler_lookups_checked")
 		ctx.seen(hash(("lookup", d, config, tn, fn)))
+		if desc is not None and desc != -1 and desc != chan:
+			ctx.violation("lookup", {"direction": "uplink pull" if d == "u" else "downlink burst", "config": config, "tn": tn, "fn": fn,
+				"channel": chan, "handler_taken_from_description_entry": desc},
+				what = "trxcon takes the handler for channel %d from entry %d of the channel description table" % (chan, desc))
+			return
 		if (chan, bid) != want:
 			ctx.violation("lookup", {"direction": "uplink pull" if d == "u" else "downlink burst", "config": config, "tn": tn, "fn": fn,
 				"selected": [chan, bid], "layout_says": list(want), "period": L["period"]},
